@@ -26,7 +26,7 @@ SPEC = {
             "non-trivial = more than one MIME section or a deep-nesting case",
     "trusted_base": [
         "Lean 4.33.0 kernel; axioms limited to propext, Classical.choice, Quot.sound (audited per theorem)",
-        "reference rendering of a MIME tree GluonModel/Spec/MimeRender.lean (what 'built from a tree' means in sections_of_built_message)",
+        "reference rendering of a MIME tree GluonModel/Spec/MimeRender.lean and expected writer calls GluonModel/Spec/MimeStructure.lean (what 'built from a tree' means in sections_of_built_message / structure_of_built_message_partial)",
         "hand-written models GluonModel/Model/MimeScan.lean (rfc822.ByteScanner, Split, parse/load/Walk as index ranges), "
         "Model/ParamList.lean (imap/params.go writer, s-expression reader), Model/Structure.lean (imap.Structure/Envelope as "
         "writer-call trees), tied to the real functions by the mime-scan / mime-split / mime-walk / mime-struct / sexp "
@@ -39,7 +39,7 @@ SPEC = {
         "QuoteOK: strconv.Quote returns a double-quoted string without unescaped double quote (checked on every string of every generated message by judge-c12-struct, not proved: strconv is not modelled)",
         "Go int arithmetic does not overflow (message literals are capped at 30 MB)",
         "crash-freedom and termination of rfc5322 (address/comment grammar), mime.ParseMediaType and rfc822.NewHeader are NOT covered by theorem (arbitrary functions in the model); searched by the c12structure oracle in a child process (finding #9: parseComment recursion overflows the stack at ~1.2e7 nested comments)",
-        "'structure = the MIME tree the message was built from' is a theorem only at the level of sections (sections_of_built_message: CRLF line ends, no preamble/epilogue, hypotheses Good/Fresh); that imap.Structure then prints that tree (types, parameters, sizes, line counts) is checked by the oracle on generated trees, where it FAILS for message/rfc822 parts holding a multipart (class rfc822-multipart-flattened)",
+        "'structure = the MIME tree the message was built from' (CRLF line ends, no preamble/epilogue, hypotheses Good/Fresh/DetOK): sections_of_built_message holds for every tree; structure_of_built_message_partial needs the named hypothesis NoEmbMulti (no message/rfc822 part holding a multipart message), structure_flattens_embedded_multipart is the concrete counter-example of the full statement (known finding, oracle class rfc822-multipart-flattened)",
         "time is not bounded by the theorems: nesting depth d costs O(d^2)-O(d^3) scanner passes (observed, reported)",
     ],
     "explanation": "Lean theorems for all byte strings: scanner/Split/sections terminate without panic and ranges nest; for every well-built MIME tree the sections are the tree (BoundaryFresh); "
